@@ -49,6 +49,10 @@ def obligations(tier):
         CH("registered_toplevel_extensions_not_custom", H, "toplevel_extension_routes", t, mode="E1s", functions=F[:1] + ["stix2.versioning.new_version", "stix2.base._STIXBase.__deepcopy__"],
            bounds="6 combinations of 3 registered extensions (two toplevel-property) x with/without a genuinely custom property x 9 routes (parse, add_markings, deepcopy, "
                   "new_version, parse of an instance, bundle member, constructor from the finished object's values strict and permissive, two marking steps)"),
+        CH("content_carried_by_registered_toplevel_extension", H, "extension_carried", t, mode="E1s", functions=F[:1] + F[4:6],
+           bounds="8 (property, clean value, custom value) cases for the properties a registered toplevel-property-extension defines (reference, list of references, hashes in two orders, embedded object, list of embedded objects, integer) x clean/custom x 3 host objects (SDO, SCO, SRO) x with/without a second extension property: strict refusal, flag, strict re-parse and the enclosing bundle's flag agree"),
+        CH("references_given_as_objects", H, "references_by_instance", t, mode="E1s", functions=F[5:6],
+           bounds="9 sites taking a reference (relationship ends, sighting, report / note lists, new_version) of both versions x the referred-to object a standard type or a registered custom type, given as the object and as its id: same strict verdict, flag and re-parse verdict"),
         CH("unknown_types_and_store_switch", H, "stores_and_unknown_types", t, mode="E1s", functions=F[8:10],
            bounds="16 documents (unregistered type alone / with an extension entry of each of 14 kinds: toplevel-property, property, new-sdo, new-sco, new-sro, empty, unknown, non-text and look-alike extension types, a key that is not an extension-definition id; custom property) x allow_custom x 4 entry points"),
     ]
